@@ -333,6 +333,7 @@ struct MixedCfg {
     with_shutdown: bool,
     sut: SutCfg,
     perturb: (u64, u64, u64),
+    forced: Option<(Site, u64)>,
 }
 
 fn mixed_cfg(focus: &str, seed: u64, index: u64, clean: bool) -> MixedCfg {
@@ -359,7 +360,8 @@ fn mixed_cfg(focus: &str, seed: u64, index: u64, clean: bool) -> MixedCfg {
         start_ns: rt::START_NS,
     };
     let perturb = *rng.pick(&[(0u64, 0u64, 0u64), (30, 10, 2), (100, 30, 5), (10, 60, 10), (200, 0, 0)]);
-    MixedCfg { threads, keys, ops: rng.range(40, 250) as usize, pressure, ttl: rng.chance(1, 2), clean_weights, with_shutdown: false, sut, perturb }
+    let forced = if rng.chance(1, 3) { Some((*rng.pick(&STRETCH_SITES), rng.range(1500, 5000))) } else { None };
+    MixedCfg { forced, threads, keys, ops: rng.range(40, 250) as usize, pressure, ttl: rng.chance(1, 2), clean_weights, with_shutdown: false, sut, perturb }
 }
 
 fn key_weight(key: u64) -> i64 { 25 + (key * 7 % 20) as i64 }
@@ -404,10 +406,11 @@ fn run_mixed(focus: &'static str, seed: u64, index: u64, clean: bool) -> CaseOut
     let case = J::obj().with("engine", J::s("conc")).with("scenario", J::s("mixed")).with("focus", J::s(focus)).with("seed", J::Int(seed as i128))
         .with("index", J::Int(index as i128)).with("threads", J::u(cfg.threads)).with("keys", J::Int(cfg.keys as i128)).with("ops_per_thread", J::u(cfg.ops))
         .with("pressure", J::Bool(cfg.pressure)).with("ttl", J::Bool(cfg.ttl)).with("same_explicit_weight_per_key", J::Bool(cfg.clean_weights))
-        .with("perturbation_permille_yield_spin_sleep", J::s(format!("{:?}", cfg.perturb))).with("config", cfg.sut.to_json());
+        .with("perturbation_permille_yield_spin_sleep", J::s(format!("{:?}", cfg.perturb))).with("forced_delay_site_us", J::s(format!("{:?}", cfg.forced))).with("config", cfg.sut.to_json());
     prep(rt::rng_for(seed, index, 7).next(), cfg.perturb.0, cfg.perturb.1, cfg.perturb.2, false);
     let panic_mark = rt::panic_count();
     let sut = Sut::new(cfg.sut.clone());
+    if let Some((site, micros)) = cfg.forced { sched().force_delay(site, micros, 40); }
     sched().start_trace();
     let stop = Arc::new(AtomicBool::new(false));
     let samples = Arc::new(AtomicU64::new(0));
@@ -466,6 +469,7 @@ fn run_mixed(focus: &'static str, seed: u64, index: u64, clean: bool) -> CaseOut
     counts.add("observer_samples", samples.load(Ordering::Relaxed));
     counts.add("weight_change_events", recorder().weight_events.swap(0, Ordering::Relaxed));
     counts.add("schedule_perturbations_injected", sched().injected.swap(0, Ordering::Relaxed));
+    counts.add("forced_long_delays_hit", sched().forced_hits.swap(0, Ordering::Relaxed));
     let witness = |recs: &[&OpRec]| witness_of(&case, recs);
     // C01: online invariant (under the total's lock) + boundary observers
     let dirty = if cfg.clean_weights { "same-weight-per-key" } else { "free-weights" };
@@ -660,6 +664,100 @@ fn run_same_key(focus: &'static str, seed: u64, index: u64) -> CaseOut {
     CaseOut { findings, counts, signature: fnv_step(signature, key), nontrivial: window_entered, sample }
 }
 
+/// Sites whose critical section / gap is worth stretching: another thread's racing step then lands inside it.
+pub const STRETCH_SITES: [Site; 10] = [
+    Site::WeightUpdateHoldingEntry, Site::WeightDeleteAfterRemove, Site::WeightDeleteHoldingTotal, Site::WeightAddBetween,
+    Site::AdmissionAfterSpaceCheck, Site::AdmissionAfterEvict, Site::WorkerAfterStoreInsert, Site::WorkerDeleteAfterStore,
+    Site::UpsertAfterStoreUpdate, Site::SweepBeforeEvict,
+];
+
+// ------------------------------------------------------------------------------------------------ scenario: worker vs sweeper on the same keys (C01 / C05 / C10 directed)
+
+/// Keys with a time-to-live are updated / deleted / re-put by the worker while the clock crosses their expiry, with one
+/// site stretched by a long bounded delay so that the sweeper's eviction of a key lands inside the worker's step on the
+/// same key (or the other way round). Accounting and bounds are checked at quiescence.
+fn run_update_sweep(focus: &'static str, seed: u64, index: u64) -> CaseOut {
+    let mut rng = rt::rng_for(seed, index, 0x0D5);
+    let site = STRETCH_SITES[(index % STRETCH_SITES.len() as u64) as usize];
+    let shards = *rng.pick(&[2usize, 2, 4]);
+    let pressure = rng.chance(1, 3);
+    let sutcfg = SutCfg { counters: 100, capacity: 16, max_weight: if pressure { 200 } else { 100_000 }, shards, cmd_buf: 8, pool: 1, buf: 2, tick: Duration::from_millis(1),
+        weight_mode: WeightMode::Custom, hash_mode: HashMode::Default, start_ns: rt::START_NS };
+    let case = J::obj().with("engine", J::s("conc")).with("scenario", J::s("update-sweep")).with("focus", J::s(focus)).with("seed", J::Int(seed as i128))
+        .with("index", J::Int(index as i128)).with("stretched_site", J::s(format!("{:?}", site))).with("config", sutcfg.to_json());
+    let mut counts = Counts::default();
+    let mut findings = Vec::new();
+    prep(1, 0, 0, 0, false);
+    let panic_mark = rt::panic_count();
+    let sut = Sut::new(sutcfg);
+    let marks = sut.marks;
+    let mut client = Client::new(1);
+    let n_keys = rng.range(2, 4);
+    let ttl_secs = rng.range(1, 3);
+    for key in 1..=n_keys {
+        let value = client.token(key);
+        client.write(&sut.cache, WriteOp::PutWTtl { key, value, weight: 40 + key as i64 * 5, ttl: Duration::from_secs(ttl_secs + (key % 2)) });
+    }
+    client.settle_all(&marks);
+    let delay_us = rng.range(3000, 7000);
+    sched().force_delay(site, delay_us, 6);
+    // the racing steps: weight-changing upserts (both directions), a delete and a fresh put, none awaited yet
+    for key in 1..=n_keys {
+        let value = client.token(key);
+        let op = match (key + index) % 4 {
+            0 => WriteOp::Upsert { key, value: Some(value), weight: Some(30), ttl: None, remove_ttl: false },
+            1 => WriteOp::Upsert { key, value: Some(value), weight: Some(70 + key as i64), ttl: None, remove_ttl: false },
+            2 => WriteOp::Delete { key },
+            _ => WriteOp::Upsert { key, value: Some(value), weight: Some(45), ttl: Some(Duration::from_secs(ttl_secs + 4)), remove_ttl: false },
+        };
+        client.write(&sut.cache, op);
+    }
+    let fresh = 10 + index % 3;
+    let value = client.token(fresh);
+    client.write(&sut.cache, WriteOp::PutWTtl { key: fresh, value, weight: 50, ttl: Duration::from_secs(1) });
+    // cross the expiries while those commands execute: dwell on `shards` consecutive seconds so that every shard is swept
+    thread::sleep(Duration::from_micros(rng.range(200, 1500)));
+    sut.advance((ttl_secs + 2) * NS);
+    for _ in 0..shards {
+        thread::sleep(Duration::from_millis(2));
+        sut.advance(NS);
+    }
+    client.settle_all(&marks);
+    counts.add("forced_long_delays_hit", sched().forced_hits.swap(0, Ordering::Relaxed));
+    sched().clear_forced();
+    let logs = client.log.clone();
+    let witness = |recs: &[&OpRec]| witness_of(&case, recs);
+    check_ack_outcomes(&logs, false, &mut counts, &mut findings, &witness, panic_mark);
+    weight_bound_findings(&mut findings, &case, "update-sweep");
+    match sut.quiesce().and_then(|_| sut.settle_fresh()) {
+        Err(waited) => push_stuck(&mut findings, "quiescence after an update/sweep race", waited, &case),
+        Ok(()) => {
+            let all: Vec<&OpRec> = logs.iter().collect();
+            let context = format!("update-sweep/site={:?}", site);
+            check_quiescent_accounting(&sut, &context, &mut counts, &mut findings, witness(&all));
+            let mut cleaner = Client::new(9);
+            for key in (1..=n_keys).chain(10..13) { cleaner.write(&sut.cache, WriteOp::Delete { key }); }
+            cleaner.settle_all(&marks);
+            if sut.quiesce().and_then(|_| sut.settle_fresh()).is_ok() {
+                let total = sut.cache.total_weight_used();
+                let held = sut.snapshot().stored.len();
+                if total != 0 || held != 0 {
+                    findings.push(Finding { props: vec!["C05", "C01"], signature: format!("C05/weight-left-after-deleting-every-key/{}", context),
+                        detail: format!("after the race every key was deleted (acknowledged), yet total_weight_used() is {} and {} entries are held", total, held), witness: witness(&all), inconclusive: false });
+                }
+                counts.inc("delete_everything_checks");
+            }
+            weight_bound_findings(&mut findings, &case, "update-sweep");
+        }
+    }
+    counts.add("sweeps_overlapping_worker_commands", recorder().swept_ids.swap(0, Ordering::Relaxed));
+    let signature = fnv_step(fnv_step(fnv_step(0x0D5, index % 40), shards as u64), n_keys << 4 | ttl_secs);
+    let sample = case.clone().with("operations", J::Arr(logs.iter().take(10).map(|r| r.to_json()).collect()));
+    if let Err(waited) = sut.finish() { if findings.is_empty() { push_stuck(&mut findings, "shutdown after an update/sweep race", waited, &case); } }
+    counts.inc("cases");
+    CaseOut { findings, counts, signature, nontrivial: true, sample }
+}
+
 // ------------------------------------------------------------------------------------------------ dispatch
 
 pub fn run(args: &Args) -> Shard {
@@ -679,6 +777,7 @@ pub fn run(args: &Args) -> Shard {
         let out = match scenario.as_str() {
             "mixed" => run_mixed(focus, seed, index, clean),
             "same-key" => run_same_key(focus, seed, index),
+            "update-sweep" => run_update_sweep(focus, seed, index),
             "burst" => crate::conc2::run_burst(focus, seed, index),
             "shutdown" => crate::conc2::run_shutdown(focus, seed, index),
             "stall" => crate::conc2::run_stall(focus, seed, index),
